@@ -59,6 +59,8 @@ func checkC05(ctx *Ctx) *Result {
 	// pattern is insecure or a public suffix must not miss a case
 	r.rule("R4.6", "pattern predicates: IsDeemedInsecure and HostIsEffectiveTLD compute the documented truth tables (trailing dot trimmed before the look-up and the comparison)", 2)
 	patternPredicates(ctx, r, "R4.6")
+	r.rule("R4.4", "deny tables: the forbidden / prohibited / safelisted name predicates are exactly the documented tables and prefixes (a wider predicate reports an error for a permitted name)", 3)
+	denyTables(ctx, r, "R4.4")
 	// "a Config assembled only from documented-permitted settings is accepted":
 	// the pattern parser rejects nothing the documentation permits
 	r.share(checkC13(ctx), map[string]string{
